@@ -6,7 +6,9 @@ single-threaded workloads on a private Dlmalloc and prints verif_stats().footpri
 next to the process' VmSize. Workload families:
   repeat  : allocate-then-free-everything shapes x free orders x threads, sampled at quiescence after every repetition
             (incl. realloc ladders on blocks aligned to 32/64/128/4096: doubling, small steps, halving, exact shrink,
-            grow-shrink cycles - raw realloc with over-aligned layouts, and Vec<#[repr(align(N))]> push / shrink_to_fit / drop)
+            grow-shrink cycles - raw realloc with over-aligned layouts, and Vec<#[repr(align(N))]> push / shrink_to_fit / drop;
+            and shrink-and-keep: hundreds of 64 KiB..1 MiB blocks, one at a time, each shrunk by realloc / shrink_to_fit /
+            into_boxed_slice to 8..400 bytes and kept, sampled with all kept blocks alive; peak_live = requested bytes)
   steady  : a BOUNDED live set (<= 64 objects) of fixed-size / few-size objects replaced one by one (FIFO / LIFO bursts /
             random) for >= 20000 steps, after a primer that carves a freed block so that the remainder (dv, or a binned
             chunk) is exactly / one granule below / above the hot chunk size; sampled with the live set full
@@ -18,7 +20,8 @@ Rules, on logical quantities only:
               F = 2*peak_live: what is still mapped at quiescence legitimately wanders between ~0 and the peak
               footprint (whether the last free triggers the trim / segment release depends on the segment
               layout, which the kernel's 2 MiB alignment of large mappings and thread stacks keep changing);
-              + 2 MiB + 64 KiB per thread for samples taken while threads are alive (steady, threads > 1)
+              + 2 MiB + 64 KiB per thread for samples taken while threads are alive (steady, threads > 1);
+              F = 8*peak_live for the shrink-and-keep shapes (fragmentation by construction, peak_live in requested bytes)
   absolute  : max held <= 8*peak_live + 64 MiB
   books     : VmSize - footprint (private allocator) does not grow by more than 256 KiB after warm-up
 """
@@ -36,13 +39,15 @@ PAGE = 4096
 W = 3
 S = 2 * 1024 * 1024 + 64 * 1024
 STACK = 2 * 1024 * 1024 + 64 * 1024
-SHAPES = ["small", "large", "mixed", "overaligned", "ladder", "round", "aladder", "vecalign"]
-PROBE_ONLY = {"vecalign"}  # Vec<#[repr(align(N))]> needs the global allocator
+SHAPES = ["small", "large", "mixed", "overaligned", "ladder", "round", "aladder", "vecalign", "shrinkkeep", "vecshrink"]
+PROBE_ONLY = {"vecalign", "vecshrink"}  # Vec needs the global allocator
+# shrink-and-keep: also sampled with every shrunk block alive; with threads the blocks are handed to main (sampled after the join)
+SAMPLES_MID = {"shrinkkeep", "vecshrink"}
 ORDERS = ["lifo", "fifo", "random"]
 # repetitions per shape: (quick, thorough single-threaded, thorough threaded)
 REPS = {"small": (3000, 60000, 60000), "overaligned": (1500, 8000, 20000), "mixed": (500, 4000, 4000),
         "ladder": (120, 1500, 1500), "large": (200, 2000, 2000), "round": (150, 1500, 1500),
-        "aladder": (300, 3000, 3000), "vecalign": (400, 4000, 4000)}
+        "aladder": (300, 3000, 3000), "vecalign": (400, 4000, 4000), "shrinkkeep": (60, 600, 600), "vecshrink": (60, 600, 600)}
 STEADY_ALIGNS = [32, 64, 128, 4096]
 # hot chunk sizes of the steady-state family: small-bin classes (< 256) and tree-bin classes
 STEADY_CHUNKS_QUICK = [48, 240, 272, 1024, 4112, 16384]
@@ -110,7 +115,10 @@ def sig_prefix(wl, threads):
 
 def judge(ck, wl, series, peak_live, threads, what, stacks_alive=False):
     """apply the non-growth and the absolute rule to one held-series; True if a violation was reported"""
-    F = 2 * peak_live + (threads * STACK if stacks_alive else 0)
+    # shrink-and-keep is fragmentation by construction (every kept block pins the start of the region its large block
+    # occupied, peak_live counts REQUESTED bytes): held legitimately reaches ~5.5x peak_live there (measured), so the
+    # allowance uses the factor of the absolute rule
+    F = (8 if wl["shape"] in SAMPLES_MID else 2) * peak_live + (threads * STACK if stacks_alive else 0)
     ref = max(series[:W])
     limit = ref + S + F
     bad = False
@@ -189,6 +197,8 @@ def run(ck, replay=None):
             combos = [(2, "own", "random"), (4, "handoff", "fifo"), (8, "own", "lifo")] if quick else \
                      [(t, m, o) for t in (2, 3, 4, 8) for m in ("own", "handoff") for o in ORDERS]
             for threads, mode, order in combos:
+                if shape in SAMPLES_MID:
+                    mode = "handoff"
                 reps = max(20, q // 2) if quick else (tn if threads == 2 and mode == "own" and order == "random" else max(q, tn // 10))
                 add(base("probe", shape, order, threads, mode, reps, rng.randrange(1, 1 << 30)))
         # ---- family 2: bounded live set in steady state, primed remainders ---------------------------
@@ -362,7 +372,7 @@ def run(ck, replay=None):
     ck.assume("failures of mremap/munmap are produced by sysmon (the call is not executed and returns -ENOMEM/-EFAULT/-EINVAL), for all calls or "
               "the k-th call after the workload's BEGIN marker; munmap is not failed in threaded probes (threads unmap their own stacks with it)")
     return ("three families: (repeat) shape {small, large, mixed, over-aligned, realloc ladder, round, realloc ladder on 32..4096-aligned blocks, "
-            "Vec of over-aligned records} x free order {LIFO, FIFO, pseudo-random "
+            "Vec of over-aligned records, shrink-and-keep (raw realloc and Vec)} x free order {LIFO, FIFO, pseudo-random "
             "reseeded per repetition} x {1 thread; 2-8 threads freeing their own blocks or handing them to main}, N repetitions (quick 120-3000, "
             "thorough up to 60000); (steady) hot chunk size over small-bin and tree-bin classes x primer {remainder -> dv, -> bin, none} x "
             "remainder {exact, -16, +16} x replacement {FIFO, LIFO bursts, random} x {fixed size, few sizes, few sizes + realloc of live objects "
